@@ -18,6 +18,10 @@ STUB_CONN = STUB_NET + ["remote peer (scripted raw-segment peer built from the s
 CS_RULE = "one evaluation = one simulated run of a real chain-sync client (NtN or NtC, pipeline limit from {0,1,2,3,7,10,50,100}, parsed or raw callbacks, slow callbacks) syncing from a real server Connection whose RequestNextFunc plays a model history of 3-42 roll-forwards (real blocks of 7 eras), roll-backwards and await-replies, optionally cancelled by ErrStopSyncProcess and followed by Client.Stop; distinct = distinct schedule hash; non-trivial = more than one request was outstanding at some callback (pipelining observed) or a clean stop was evaluated"
 
 PROPS = {
+ "C25": P([("localrpc", 1)], 1600, 60000,
+          "one evaluation = one simulated run of a local-state-query, local-tx-monitor, local-tx-submission or peer-sharing client shared by 1-4 application tasks issuing 1-6 calls each (queries, re-acquires, has-tx/next-tx/sizes, submits, get-peers) against a real server Connection whose callbacks tag every reply (query counter, accept/reject bit of the submitted bytes, number of peers requested, fixed real-transaction mempool); each return value must carry its own request's tag, tags must be unique and consistent with real-time order; distinct = distinct schedule hash; non-trivial = more than one task called the shared client",
+          ["rpc.concurrent-callers"], expect=["rpc.concurrent-callers", "rpc.lsq", "rpc.ltm", "rpc.lts", "rpc.ps"], real=REAL_CONN + ["ledger transaction decoding (mempool)"], stubs=STUB_NET + ["application (tagging callbacks)"],
+          assumptions=["one-bit tags (local-tx-submission accept/reject) detect a swap with probability 1/2 per occurrence"]),
  "C24": P([("txsub", 3), ("txsub-raw", 1)], 1600, 60000,
           "one evaluation = one simulated run of the tx-submission inbound side (Server.RequestTxIds/RequestTxs, 1-14 rounds, blocking and non-blocking, counts from {0,1,2,3,10,65535} and out-of-range API arguments) against a real outbound side whose callback returns any number of ids (including more than requested) or ErrStopServerProcess; the RequestTxIds messages on the wire are checked against a model acknowledgement window; or of a raw inbound peer sending ack/req counts around and beyond 65535 to a real outbound side; distinct = distinct schedule hash; non-trivial = several request rounds were on the wire or an out-of-range count was sent",
           ["txsub.multi-round", "txsubraw.out-of-range"], expect=["txsub.multi-round", "txsub.done-sent", "txsub.stop-during-non-blocking", "txsub.out-of-range-api-call", "txsubraw.out-of-range", "txsubraw.in-range"], real=REAL_CONN, stubs=STUB_CONN),
